@@ -4,6 +4,7 @@ package main
 // the real lexer produced (verif hook), the outcome of Compile, and the totality side conditions.
 
 import (
+	"encoding/json"
 	"errors"
 	"strings"
 
@@ -38,7 +39,68 @@ func safeMustCompile(src string) (panicked bool) {
 	return false
 }
 
+// runDenoteCase (C11): the bytes are a candidate JSON text; it is compiled as an expression and
+// evaluated with EvalBytes, and - independently - decoded by encoding/json.
+func runDenoteCase(rq *request) M {
+	src := string(bytesOf(rq.Bytes))
+	ev := M{"id": rq.ID, "ev": "Denote", "fam": rq.Fam, "bytes": bytesJSON([]byte(src))}
+	var ref interface{}
+	if err := json.Unmarshal([]byte(src), &ref); err == nil {
+		if pr, perr := project(ref); perr == nil {
+			ev["ref"] = pr
+		}
+	}
+	e, cerr, cp := safeCompile(src)
+	switch {
+	case cp != nil:
+		ev["out"] = M{"o": "panic", "site": cp.site, "msg": cp.msg}
+		return ev
+	case cerr != nil:
+		ev["out"] = classifyErr(cerr)
+		return ev
+	}
+	func() {
+		defer func() {
+			if r := recover(); r != nil {
+				p := capturePanic(r)
+				ev["out"] = M{"o": "panic", "site": p.site, "msg": p.msg}
+			}
+		}()
+		// "on any input": the input rotates with the text
+		inputs := []string{`{"a": 1, "b": [2]}`, `[]`, `{}`, `[1, 2]`, `"s"`, `null`, `[[]]`, `0`}
+		h := 0
+		for _, c := range []byte(src) {
+			h = (h*31 + int(c)) % 1000003
+		}
+		in := inputs[h%len(inputs)]
+		var inv interface{}
+		json.Unmarshal([]byte(in), &inv)
+		pin, _ := project(inv)
+		ev["inp"] = pin
+		b, err := e.EvalBytes([]byte(in))
+		if err != nil {
+			ev["out"] = classifyErr(err)
+			return
+		}
+		var back interface{}
+		if err := json.Unmarshal(b, &back); err != nil {
+			ev["out"] = M{"o": "bad", "why": "EvalBytes returned invalid JSON"}
+			return
+		}
+		pb, perr := project(back)
+		if perr != nil {
+			ev["out"] = M{"o": "unproj", "gotype": perr.Error()}
+			return
+		}
+		ev["out"] = M{"o": "val", "r": pb}
+	}()
+	return ev
+}
+
 func runCompileCase(rq *request) M {
+	if rq.Mode == "denote" {
+		return runDenoteCase(rq)
+	}
 	src := string(bytesOf(rq.Bytes))
 	ev := M{"id": rq.ID, "ev": "Lex", "fam": rq.Fam, "bytes": bytesJSON([]byte(src))}
 	var toks []interface{}
